@@ -180,6 +180,14 @@ def check_case(p, ctx):
                                  detail={"frame": t, "row": k, "adim": p["adim"], "vnorm": p["vnorm"]})
     if zero_speed_frames:
         return
+    # get_system_velocity_per_frame builds every frame without limit: its premise (a non-zero mean speed) has to
+    # hold for the junction rows of those unlimited builds, which may be more than the rows of a limited build above
+    for t in range(n):
+        call(fsys.build_force_matrix, when=t, angle_limit=np.inf)
+        rows_u = dict(fsys.force_matrices[t].map_vid_to_row)
+        if rows_u and float(np.mean([abs(exp_v[(t, S.jid(t, vid))]) for vid in rows_u])) == 0.0:
+            ctx.count("frame-with-zero-mean-speed(adimensional clause undefined)")
+            return
     sysv = call(fsys.get_system_velocity_per_frame)
     for t in range(n):
         rows = dict(fsys.force_matrices[t].map_vid_to_row)
